@@ -163,6 +163,12 @@ class Gen:
         if k == 0:
             return f"if ({self.cond()}) {self.body(depth)}"
         if k == 1:
+            if r.random() < 0.4:
+                # an else-if ladder (the else branch IS the next conditional, no braces) closed by a plain else
+                n = r.choice([1, 2, 2, 3])
+                links = "".join(f" else if ({self.cond()}) {self.body(depth)}" for _ in range(n))
+                last = f" else {self.body(depth)}" if r.random() < 0.8 else ""
+                return f"if ({self.cond()}) {self.body(depth)}{links}{last}"
             return f"if ({self.cond()}) {self.body(depth)} else {self.body(depth)}"
         if k in (2, 3):
             return f"while ({self.cond()}) {self.body(depth)}"
